@@ -1,4 +1,5 @@
 import ShexerModel.Lemmas.R1
+import ShexerModel.Model.Text
 /-! C14 — inverse paths add incoming-link constraints and leave the rest untouched.
 
 At the level of the counting passes (where all figures originate): the outgoing counts of every
@@ -97,5 +98,23 @@ theorem inCount_eq_outCount_rev (cfg : Config) (sel : Spec.Selection) (g : Graph
 example : rev {} [⟨.iri "a", "p", .iri "b"⟩, ⟨.iri "a", "q", .lit "d"⟩,
     ⟨.iri "a", "http://www.w3.org/1999/02/22-rdf-syntax-ns#type", .iri "C"⟩]
   = [⟨.iri "b", "p", .iri "a"⟩, ⟨.iri "a", "http://www.w3.org/1999/02/22-rdf-syntax-ns#type", .iri "C"⟩] := by decide
+
+/-- **an incoming constraint is written with the key of the outgoing one plus `^`**: the predicate token and every value token of a
+statement - the value set `[ex:C]` of the instantiation property included - are those of the same statement in the other direction; only
+the `^` differs.  (So `^ rdf:type [ex:rex]` carries the key `rdf:type [ex:rex]` of the reversed graph; a serializer that drops the
+brackets for incoming typing arcs changes the key.) -/
+theorem written_key_direction_independent (cfg : Config) (ns : Text.Namespaces) (s : Shexer.Stmt) :
+    (Text.stmtTokens cfg ns { s with inverse := true }).2 = (Text.stmtTokens cfg ns { s with inverse := false }).2 ∧
+    (Text.stmtTokens cfg ns { s with inverse := true }).1 = "^" ∧ (Text.stmtTokens cfg ns { s with inverse := false }).1 = "" := by
+  refine ⟨?_, rfl, rfl⟩
+  unfold Text.stmtTokens
+  simp only [Text.valueToken]
+
+/-- the value of a constraint on the instantiation property is a value set in both directions, nothing else is -/
+theorem value_set_iff_instantiation_property (cfg : Config) (ns : Text.Namespaces) (s : Shexer.Stmt) (ty : String) :
+    Text.valueToken cfg ns s ty = (if s.prop == cfg.instProp then "[" ++ (Text.tuneToken ns ty).render ++ "]" else (Text.tuneToken ns ty).render) := rfl
+
+example : Text.valueToken {} [("http://e.org/", "ex")] { prop := "http://www.w3.org/1999/02/22-rdf-syntax-ns#type", types := ["http://e.org/rex"], card := Card.opt, n := 1, inverse := true }
+    "http://e.org/rex" = "[ex:rex]" := by decide +kernel
 
 end Shexer.C14
